@@ -368,6 +368,10 @@ class Boom(Exception):
     pass
 
 
+class Swallowed(Exception):
+    pass
+
+
 def run_program(items, io, model, expected, depth=0):
     """Execute the program on the real IO and on the model (dict stream -> indent)."""
     for it in items:
@@ -402,14 +406,18 @@ def run_program(items, io, model, expected, depth=0):
                 out = io.output if scope == "out" else io.error_output
                 cm = out.indent(n) if mode == "set" else out.increment_indent(n)
                 targets = [scope]
+            boom_seen = []
             try:
                 with cm:
                     for t in targets:
                         model[t] = n if mode == "set" else model[t] + n
                     try:
                         run_program(it["body"], io, model, expected, depth + 1)
-                    finally:
-                        pass
+                    except Boom:
+                        boom_seen.append(True)
+                        raise
+                if boom_seen:
+                    raise Swallowed("a scope that was left by an exception did not let the exception through")
             except Boom:
                 for t in targets:  # a scope restores the outputs it covers, nothing else
                     model[t] = saved[t]
@@ -441,6 +449,10 @@ def check_indent(ctx, case):
                 # uncaught at top level: every scope has been left (and has restored the model on the way out);
                 # the trailing writes did not happen, do them now
                 run_program(prog[-2:], io, model, expected)
+        except Swallowed as e:
+            ctx.fail("indent", "C11.indent", case, "an exception raised inside a scope leaves the scope", str(e),
+                     sig="scope-swallows-exception")
+            return
         except Exception as e:
             ctx.fail("indent", "C11.indent", case, "program runs", label, exc=e)
             return
